@@ -44,6 +44,7 @@ type pipeCfg struct {
 	maxGetURL   uint32
 	expand      int
 	decompCount *int
+	jsonRepeat  int
 }
 
 func clientProtocolOf(form int) Protocol {
@@ -317,6 +318,7 @@ type respScript struct {
 	trailerHdrs  http.Header
 	respHdrs     http.Header
 	announce     bool // gRPC trailers announced via "Trailer" header instead of http.TrailerPrefix
+	announceLow  bool // ... with lower-case names in the Trailer header
 }
 
 type pipeBackend struct {
@@ -496,7 +498,10 @@ func (b *pipeBackend) ServeHTTP(w http.ResponseWriter, r *http.Request) {
 	if b.target == ProtocolGRPC && s.announce {
 		h.Add("Trailer", "Grpc-Status")
 		h.Add("Trailer", "Grpc-Message")
-		for k := range s.trailerHdrs {
+		for _, k := range sortedHeaderKeys(s.trailerHdrs) {
+			if s.announceLow {
+				k = strings.ToLower(k)
+			}
 			h.Add("Trailer", k)
 		}
 	}
@@ -970,21 +975,29 @@ type pipeRun struct {
 }
 
 // pipeRules: one REST binding with body "*" and a literal path (the in-reach REST subset).
+const pipeRESTGetPath = "/g"
+
 func pipeRules() []*annotations.HttpRule {
 	return []*annotations.HttpRule{{
 		Selector: pipeSvc + "." + pipeMethod,
 		Pattern:  &annotations.HttpRule_Post{Post: pipeRESTPath},
 		Body:     "*",
+		// a GET binding without body or variables on a short path (REST GET clients)
+		AdditionalBindings: []*annotations.HttpRule{{Pattern: &annotations.HttpRule_Get{Get: pipeRESTGetPath}}},
 	}}
 }
 
 func newPipe(cfg *pipeCfg) *pipeRun {
 	p := &pipeRun{cfg: cfg}
+	refJSONRepeat = 1
+	if cfg.jsonRepeat > 1 {
+		refJSONRepeat = cfg.jsonRepeat
+	}
 	svc := newFakeService(pipeSvc)
 	svc.addMethod(pipeMethod, cfg.kind, cfg.idem, cfg.hasIdem)
 	target, codec, _ := refNegotiate(cfg)
 	p.backend = &pipeBackend{target: target, unary: cfg.kind == fkUnary, codec: codec, bufSize: 16}
-	fc := &fakeConfig{protocols: cfg.svcProtos, codecs: cfg.svcCodecs, maxMsg: cfg.maxMsg, maxGetURL: cfg.maxGetURL, unstable: cfg.unstable, expand: cfg.expand, decompCount: cfg.decompCount}
+	fc := &fakeConfig{protocols: cfg.svcProtos, codecs: cfg.svcCodecs, maxMsg: cfg.maxMsg, maxGetURL: cfg.maxGetURL, unstable: cfg.unstable, expand: cfg.expand, decompCount: cfg.decompCount, jsonRepeat: cfg.jsonRepeat}
 	if cfg.svcComp {
 		fc.compressors = []string{CompressionGzip}
 	}
